@@ -16,7 +16,7 @@ func init() {
 
 func runR28(c *Ctx) {
 	p := c.P
-	fn := p.Func("internal/strings", "AppendQuotedString")
+	fn := p.anchorEscaper()
 	if fn == nil {
 		c.undecided("internal/strings.AppendQuotedString", "-", "not found")
 		return
